@@ -454,12 +454,43 @@ def r6(ctx):
         ctx.ob(fi.qual, "snv-means-single-base-alleles", ok, fi.loc(rets[0]), "is_snv requires length 1 of the reference and of every alternative allele" if ok else "is_snv does not require length 1 of %s: a multi-base substitution is counted as SNV by `whatshap stats` (and kept by --only-snvs)" % ", ".join(missing))
 
 
+def r5_split(ctx):
+    """PhasedBlock.split(split_left, split_right): the left piece keeps the variants strictly left of split_left, the right
+    piece those strictly right of split_right -- so the pieces of a cut phase set stay clear of the span [split_left,
+    split_right] of the set that cuts it, and the emitted pieces do not overlap."""
+    sp = ctx.func(MOD + ".PhasedBlock.split")
+    cfg = ctx.cfg(sp)
+    ps_ = util.params_of(sp.node)
+    lo, hi = ps_[1], ps_[2]
+    rets = [n for n in walk_function(sp.node) if isinstance(n, ast.Return) and isinstance(n.value, ast.Tuple) and len(n.value.elts) == 2]
+    adds = [c for c in ctx.prog.calls_in(sp.node) if isinstance(c.func, ast.Attribute) and c.func.attr == "add" and len(c.args) == 2]
+    if len(rets) != 1 or len(adds) != 2:
+        ctx.ob(sp.qual, "split-pieces-clear-of-the-cutting-span", None, sp.loc(), "cannot read how split() fills its two pieces")
+        return
+    left, right = u(rets[0].value.elts[0]), u(rets[0].value.elts[1])
+    ok, why = True, ""
+    for c in adds:
+        ga = guard_atoms(cfg, cfg.node_containing(c))
+        pos = "%s.position" % u(c.args[0])
+        if u(c.func.value) == left:
+            good = ("%s < %s" % (pos, lo), True) in ga
+            if not good:
+                ok, why = False, "the left piece is not filled under `%s < %s` (%s)" % (pos, lo, sorted(t for t, p_ in ga if p_ and pos in t))
+        elif u(c.func.value) == right:
+            good = ("%s < %s" % (hi, pos), True) in ga
+            if not good:
+                ok, why = False, "the right piece is not filled under `%s > %s` (%s)" % (pos, hi, sorted(t for t, p_ in ga if p_ and pos in t))
+        else:
+            ok, why = None, "a piece other than the two returned ones is filled"
+    ctx.ob(sp.qual, "split-pieces-clear-of-the-cutting-span", ok, sp.loc(), "left piece: position < %s, right piece: position > %s" % (lo, hi) if ok else why + ": a piece of a cut phase set reaches into the set that cuts it, so the `non-overlapping` blocks overlap and the bp-per-block statistics are inflated")
+
+
 RULES = [
     ("C12.R1", "none-before-hom: missing genotype excluded before the hom/het split", r1),
     ("C12.R2", "one bucket per heterozygous call; phased/singleton partition; fields", r2),
     ("C12.R3", "aggregation exhaustiveness of PhasingStats.__iadd__ and total", r3),
     ("C12.R4", "block list: one line per phase set with 1-based extent and size", r4),
-    ("C12.R5", "non-overlapping split: the sorted worklist is re-sorted after insertions", r5),
+    ("C12.R5", "non-overlapping split: the sorted worklist is re-sorted after insertions; pieces stay clear of the cutting span", lambda ctx: (r5(ctx), r5_split(ctx))),
     ("C12.R6", "SNV classification requires single-base alleles", r6),
 ]
 # instance floors: about 60% of the instances confirmed by hand on the reference tree -- a rule that suddenly matches far fewer
